@@ -214,6 +214,15 @@ Proof.
   intros. unfold write_at. rewrite !app_length, firstn_length, repeat_length, skipn_length. lia.
 Qed.
 
+(* every call of a list succeeds when the list is executed on one key's directories *)
+Fixpoint kall_ok (cs : list call) (v : kview) : bool :=
+  match cs with [] => true | c :: t => isSome (kstep c v) && kall_ok t (kapply v c) end.
+Lemma kall_ok_app : forall a b v, kall_ok (a ++ b) v = kall_ok a v && kall_ok b (kexec a v).
+Proof.
+  induction a as [|c t IH]; intros b v; cbn [app kall_ok]; [reflexivity|].
+  change (kexec (c :: t) v) with (kexec t (kapply v c)). rewrite IH. now rewrite andb_assoc.
+Qed.
+
 (* ---------------------------------------------------------------- the shape of every operation from a DI state *)
 Inductive oshape (c : cfg) (s : state) (o : op) : Prop :=
 | os_noop : st_of (step c s o) = s -> calls_of (step c s o) = [] -> oshape c s o
@@ -247,6 +256,7 @@ Inductive oshape (c : cfg) (s : state) (o : op) : Prop :=
     (forall pk, prefix pk body ->
        veq (kexec pk (blobs (disk s) x)) (blobs (disk s) x) \/ kexec pk (blobs (disk s) x) = kexec body (blobs (disk s) x)) ->
     dir_ok c e' d1 ->
+    kall_ok body (blobs (disk s) x) = true ->
     oshape c s o.
 
 Lemma prefix_one : forall {A} (p : list A) a, prefix p [a] -> p = [] \/ p = [a].
@@ -362,6 +372,7 @@ Proof.
       * cbn [kexec fold_left]. unfold kapply. cbn [kstep]. rewrite V. cbn [fget]. rewrite Hb, B. reflexivity.
       * apply short_body. cbn. lia.
       * exists b. cbn. repeat split; auto.
+      * cbn [kall_ok kstep]. rewrite V. cbn [fget]. rewrite Hb, B. reflexivity.
   - apply os_noop; cbn [step]; rewrite M; reflexivity.
 Qed.
 
@@ -385,6 +396,7 @@ Proof.
       * cbn [kexec fold_left]. unfold kapply. rewrite KS. reflexivity.
       * apply short_body. cbn. lia.
       * exists b. cbn. repeat split; auto.
+      * cbn [kall_ok]. rewrite KS. reflexivity.
     + apply os_noop; cbn [step]; rewrite M, B; reflexivity.
   - apply os_noop; cbn [step]; rewrite M; reflexivity.
 Qed.
@@ -417,6 +429,7 @@ Proof.
     + destruct data as [|z data]; [exists b; auto|].
       exists (write_at b off (z :: data)). cbn [fset d_data d_ban d_sizef]. repeat split; auto.
       rewrite write_at_length. lia.
+    + unfold wr. destruct data as [|z data]; [reflexivity|]. cbn [kall_ok kstep]. rewrite V. cbn [fget]. rewrite Hd. reflexivity.
   - apply os_noop; cbn [step]; rewrite M; reflexivity.
 Qed.
 
@@ -439,6 +452,7 @@ Proof.
       * cbn [kexec fold_left]. unfold kapply. rewrite KS. reflexivity.
       * apply short_body. cbn. lia.
       * exists b. cbn. repeat split; auto.
+      * cbn [kall_ok]. rewrite KS. reflexivity.
     + apply os_noop; cbn [step]; rewrite M; cbn [kstep]; rewrite V; cbn [fget]; rewrite G; reflexivity.
   - apply os_noop; cbn [step]; rewrite M; reflexivity.
 Qed.
@@ -463,6 +477,7 @@ Proof.
         -- unfold kapply. cbn [kstep]. rewrite V. cbn [fget]. rewrite G. reflexivity.
       * apply short_body, wr_length.
       * destruct data as [|z data]; exists b; cbn; repeat split; auto.
+      * unfold wr. destruct data as [|z data]; [reflexivity|]. cbn [kall_ok kstep]. rewrite V. cbn [fget]. rewrite G. reflexivity.
     + apply os_noop; cbn [step]; rewrite M, V, G; reflexivity.
   - apply os_noop; cbn [step]; rewrite M; reflexivity.
 Qed.
@@ -516,6 +531,10 @@ Proof.
         -- left. cbn. rewrite <- (vset_vget_id a v d V) at 2. now apply veq_vset.
         -- right. rewrite (kexec_cons (COpen a x (FTmp sfx) OTrunc)), K1, kexec_app, K2. reflexivity.
     + exists b. unfold d4, d3. destruct data; cbn; repeat split; auto.
+    + fold a; fold v. cbn [kall_ok]. rewrite (kstep_trunc _ _ _ _ d V). cbn [isSome andb]. rewrite K1, kall_ok_app, K2.
+      assert (W1 : kall_ok (wr a x (FTmp sfx) 0 data) (vset a (Some d2) v) = true).
+      { unfold wr. destruct data as [|z data]; [reflexivity|]. cbn [kall_ok kstep]. rewrite vget_vset, G2. reflexivity. }
+      rewrite W1. cbn [kall_ok kstep andb]. rewrite vget_vset, G3. reflexivity.
   - apply os_noop; cbn [step]; rewrite M; reflexivity.
 Qed.
 
